@@ -45,6 +45,9 @@ impl Profile {
 struct Var {
     name: String,
     ty: Ty,
+    /// the declared type is the variable's static type exactly (parameters, constants of a known
+    /// union type); otherwise it is only an upper bound of it
+    exact: bool,
 }
 
 pub struct Program {
@@ -116,7 +119,12 @@ impl<'a> Gen<'a> {
     fn declare(&mut self, name: &str, ty: Ty) {
         // whatever the name meant before, it is no longer known to be a finite iterator
         self.iterators.retain(|n| n != name);
-        self.scopes.last_mut().unwrap().push(Var { name: name.to_string(), ty });
+        self.scopes.last_mut().unwrap().push(Var { name: name.to_string(), ty, exact: false });
+    }
+
+    fn declare_exact(&mut self, name: &str, ty: Ty) {
+        self.declare(name, ty);
+        self.scopes.last_mut().unwrap().last_mut().unwrap().exact = true;
     }
 
     fn lookup(&self, name: &str) -> Option<&Ty> {
@@ -710,8 +718,13 @@ impl<'a> Gen<'a> {
             let (m, other) = (ms[k].clone(), ms[(k + 1) % ms.len()].clone());
             let n = 1 + self.tape.below(3);
             self.label("array of union-typed elements of one member");
+            let vars: Vec<Var> = self.vars_of(|t| matches!(t, Ty::Union(_)) && crate::ty::sub(t, elem));
             let items = (0..n)
                 .map(|_| {
+                    if !vars.is_empty() && self.tape.bool() {
+                        // a variable whose static type is a union, whatever it holds
+                        return Expr::Var(vars[self.tape.below(vars.len())].name.clone());
+                    }
                     let pair = vec![self.expr(&m, depth - 1), self.leaf(&other)];
                     Expr::Index(Box::new(Expr::Array(pair)), Box::new(Expr::Int(0)))
                 })
@@ -907,7 +920,7 @@ impl<'a> Gen<'a> {
             self.declare(n, Ty::Never);
         }
         for (n, t) in params {
-            self.declare(n, t.clone());
+            self.declare_exact(n, t.clone());
         }
         let saved_params = std::mem::replace(&mut self.params, params.to_vec());
         let mut body = vec![];
@@ -986,12 +999,23 @@ impl<'a> Gen<'a> {
                 }
                 // `mut x` without a declared type, x a variable whose static type is a union: the cell is a
                 // `mut (A|B)` whatever x turns out to be
+                if self.tape.chance(1, 6) {
+                    // `x := [a, b][k]` with literal a, b of two scalar types: a constant whose static type is
+                    // exactly a|b (recorded like a parameter: its declared type is its static type)
+                    let (ta, tb) = (self.gen_scalar_ty(), self.gen_scalar_ty());
+                    if ta != tb {
+                        let (a, b) = (self.lit(&ta), self.lit(&tb));
+                        let k = self.tape.range(-2, 1);
+                        let u = ta.or(tb);
+                        self.label("constant of an exactly known union type");
+                        self.declare_exact(&name, u);
+                        return Stmt::Let(name, Box::new(Stmt::Expr(Expr::Index(Box::new(Expr::Array(vec![a, b])), Box::new(Expr::Int(k))))));
+                    }
+                }
                 let unions: Vec<Var> = self
-                    .params
-                    .clone()
+                    .visible()
                     .into_iter()
-                    .filter(|(n, t)| matches!(t, Ty::Union(ms) if ms.iter().all(|m| matches!(m, Ty::Int | Ty::Bool | Ty::Str | Ty::Float))) && self.lookup(n) == Some(t))
-                    .map(|(name, ty)| Var { name, ty })
+                    .filter(|v| v.exact && matches!(&v.ty, Ty::Union(ms) if ms.iter().all(|m| matches!(m, Ty::Int | Ty::Bool | Ty::Str | Ty::Float))))
                     .collect();
                 if !unions.is_empty() && self.tape.chance(1, 2) {
                     let u = unions[self.tape.below(unions.len())].clone();
